@@ -910,8 +910,8 @@ fn c07_fragment_number_set_widest__rest() {
 }
 
 // @check props=C07 tier=quick
-// @desc FragmentNumberSet::try_read_from_bytes on truncated input (outside the recorded triggers): numBits 0 and 33 with an all-zero bitmap, symbolic base, every input length 0..=16: decodes iff base, numBits and ceil(numBits/32) bitmap words are present; no panic
-// @bounds 16-byte buffer, input length enumerated 0..=16 (concrete per call), numBits 0 little-endian / 33 big-endian; unwind 35
+// @desc FragmentNumberSet::try_read_from_bytes on truncated input (outside the recorded triggers): numBits 0 and 33 with an all-zero bitmap, symbolic base, input lengths {0,3,4,7,8,11,12,15,16}: decodes iff base, numBits and ceil(numBits/32) bitmap words are present; no panic
+// @bounds 16-byte buffer, input length enumerated over every field boundary and one byte before it (concrete per call; a symbolic length did not terminate in 600 s), numBits 0 little-endian / 33 big-endian; unwind 35
 // @assume NOT trigger KF-C07-1, NOT trigger KF-C07-2; numBits in {0, 33}, bitmap zero
 // @enc rtps_messages::submessage_elements::FragmentNumberSet::try_read_from_bytes
 #[kani::proof]
@@ -921,15 +921,13 @@ fn c07_fragment_number_set_truncated__rest() {
         let mut bytes = [0u8; 16];
         let (_base, words) = lay_out_fns(&mut bytes, 0, le, nb, 0);
         let e = if le { Endianness::LittleEndian } else { Endianness::BigEndian };
-        let mut len = 0usize;
-        while len <= 16 {
+        for len in [0usize, 3, 4, 7, 8, 11, 12, 15, 16] {
             let mut d = &bytes[..len];
             let r = FragmentNumberSet::try_read_from_bytes(&mut d, &e);
             assert!(r.is_ok() == (len >= 8 + 4 * words), "C07: FragmentNumberSet decodes iff base, numBits and the bitmap words are present");
             kani::cover!(r.is_err() && nb == 33 && len == 15, "a set with a truncated second bitmap word is rejected");
             kani::cover!(r.is_ok() && nb == 0 && len == 8, "an empty set decodes from exactly 8 bytes");
             core::mem::forget(r);
-            len += 1;
         }
     }
 }
@@ -1042,7 +1040,7 @@ fn c07_cdr_primitives() {
 
 // @check props=C07 tier=quick
 // @desc discovery ParameterList::new + get_optional_parameter / get_non_optional_parameter (PidIterator, seek_to_pid, endianness) on arbitrary bytes and an arbitrary pid: Ok or Err, no panic; a value is only returned when the list has a supported representation header
-// @bounds 16 symbolic bytes (representation header + up to 3 parameters), symbolic length, symbolic pid; value types i32 (optional), [u8;2] (non-optional), Duration (optional); unwind 6 (PidIterator <= 4 items)
+// @bounds 16 symbolic bytes (representation header + up to 3 parameters), symbolic length, symbolic pid; value types i32 (optional, 4 bytes) and Duration (non-optional, 8 bytes); unwind 6 (PidIterator <= 4 items)
 // @enc dcps::data_representation_builtin_endpoints::rtps_data_representation::ParameterList::new
 // @enc dcps::data_representation_builtin_endpoints::rtps_data_representation::ParameterList::get_optional_parameter
 // @enc dcps::data_representation_builtin_endpoints::rtps_data_representation::ParameterList::get_non_optional_parameter
@@ -1060,13 +1058,12 @@ fn c07_discovery_parameter_scalars() {
             assert!(len >= 4, "C07: a parameter list of < 4 bytes accepted");
             let supported = bytes[1] == 2 || bytes[1] == 3;
             let a = pl.get_optional_parameter::<i32>(pid, 7);
-            let b = pl.get_non_optional_parameter::<[u8; 2]>(pid);
-            let d = pl.get_optional_parameter::<Duration>(pid, Duration { sec: 0, nanosec: 0 });
+            let d = pl.get_non_optional_parameter::<Duration>(pid);
             if !supported {
-                assert!(a.is_err() && b.is_err() && d.is_err(), "C07: value returned from a list with an unsupported representation header");
+                assert!(a.is_err() && d.is_err(), "C07: value returned from a list with an unsupported representation header");
             }
             kani::cover!(matches!(a, Ok(v) if v != 7) && bytes[1] == 2, "a big-endian i32 parameter is found and decoded");
-            kani::cover!(matches!(a, Ok(7)) && matches!(b, Err(CdrError::PidNotFound(_))), "pid not found: default / PidNotFound");
+            kani::cover!(matches!(a, Ok(7)) && matches!(d, Err(CdrError::PidNotFound(_))), "pid not found: default / PidNotFound");
             kani::cover!(matches!(d, Err(CdrError::NotEnoughData)), "a found parameter too short for its type is an error");
             kani::cover!(matches!(&d, Ok(v) if v.nanosec > 0) && bytes[1] == 3, "a little-endian Duration parameter is decoded");
         }
